@@ -3,13 +3,21 @@ P — the validation layer of Snowfakery (C20): what `parse_recipe_yaml.parse_re
 static passes that `data_generator.generate` runs before the first row is written
 (`merge_options`, `find_tables_to_keep_history_for`) *do* with an arbitrary YAML value.
 
-The model mirrors the checks of the code in the order the code performs them, including the places
-where the code performs **no** check and the Python raises a non-recipe exception on an ill-shaped
-value (an `assert`, an attribute access, an unpacking, a hash of an unhashable value).  Each such
-place is an explicit outcome `Res.stuck site`; `Site` lists them, one constructor per
-(exception type, raising function).  A recipe error (`DataGenError` and subclasses) is
-`Res.recipeError kind`.  Unbounded recursion (two files that `include_file` each other — the code
-has no cycle check, unlike for macros) is `Res.fuel` for every amount of fuel.
+The model mirrors the checks of the code in the order the code performs them (repository HEAD
+66ecebf: the escape sites found by this package — D17a…D17s, D17u…D17aa — have been repaired by
+`fix:` commits, and the model follows the repaired code: each former hole is now the explicit
+`DataGenError` the code raises).  A recipe error (`DataGenError` and subclasses) is
+`Res.recipeError kind`.
+
+`Res.stuck site` remains for the places where the code *still* performs an operation that would
+raise a non-recipe exception on an ill-shaped value (a hash of an unhashable name, an `rsplit`, an
+attribute read) and relies on an earlier validation step to exclude that value; `Site` lists them.
+`Props/C20.lean` proves that none of them is reachable, for any document.
+
+`Res.fuel`: the recursion budget ran out.  On the code this is Python's recursion limit, and
+`parse_recipe` turns the `RecursionError` into a `DataGenSyntaxError` ("nested too deeply").
+include_file cycles and macro cycles (also through nested templates) are detected by explicit
+stacks, as in the code.
 
 Import-free (linked into the driver).  No Mathlib.
 -/
@@ -78,48 +86,27 @@ inductive Err where
   | import_   -- DataGenImportError
   deriving Repr, DecidableEq, Inhabited
 
-/-- The places where an ill-shaped value makes the Python raise something that is *not* a
-    `DataGenError`.  Comment: exception type @ innermost Snowfakery function. -/
+/-- The operations that would raise a non-recipe exception on an ill-shaped value and that the code
+    does not guard *in place*: an earlier validation step is what excludes the value.
+    Comment: exception type @ innermost Snowfakery function, and the guard. -/
 inductive Site where
-  | friendNotMap      -- AssertionError  @ parse_statement_list          `friends: [5]`
-  | stmtKeyNotStr     -- AttributeError  @ parse_statement_list          `friends: [{5: x}]`
-  | fieldValueShape   -- AssertionError  @ parse_field_value             `x: [1, 2]`
-  | fieldNameFalsy    -- AssertionError  @ parse_field                   `"": 1`, `0: 1`, `null: 1`
-  | fieldNameNotStr   -- AttributeError  @ TableInfo.register            `5: 1`, `true: 1`, `2020-01-01: 1`
-  | funcNameNotStr    -- TypeError       @ parse_structured_value        `x: {5: 1}`
-  | funcNameDots      -- ValueError      @ parse_structured_value        `x: {a.b.c: 1}`
-  | forEachNoVar      -- AttributeError  @ parse_for_each_variable_definition   `for_each: {value: x}`
-  | includeAbs        -- AssertionError  @ relpath_from_inclusion_element       `include_file: /abs`
-  | macroUnhashable   -- TypeError       @ parse_top_level_elements      `macro: [1]`
-  | pluginNotStr      -- AttributeError  @ resolve_plugin_alternatives   `plugin: 5`
-  | pluginNoDot       -- ValueError      @ resolve_plugin_alternatives   `plugin: foo`
-  | optionUnhashable  -- TypeError       @ merge_options                 `option: [1]`
-  | refNoArgs         -- UnboundLocalError @ get_referent_name           `random_reference: {}`
-  | refNoTo           -- KeyError        @ get_referent_name             `random_reference: {unique: true}`
-  | refNotSimple      -- AttributeError  @ get_referent_name             `random_reference: {to: {a: b}}`
-  | templateNoObject  -- AttributeError  @ parse_object_template  (never reached: see `Props/C20`)
-  | varNoVar          -- AttributeError  @ parse_variable_definition (never reached)
+  | macroUnhashable   -- TypeError      @ parse_top_level_elements  `{obj["macro"]: obj …}`; guard: declaration loop
+  | pluginNotStr      -- AttributeError @ resolve_plugin_alternatives `plugin.rsplit`;     guard: declaration loop
+  | pluginNoDot       -- ValueError     @ resolve_plugin_alternatives `prefix, cls = …`;   guard: declaration loop
+  | optionUnhashable  -- TypeError      @ merge_options `name in user_options`;            guard: declaration loop
+  | templateNoObject  -- AttributeError @ parse_object_template `parsed_template.object`;  guard: the callers' `obj.get("object")`
+  | varNoVar          -- AttributeError @ parse_variable_definition `parsed_template.var`; guard: the caller's `obj.get("var")`
+  | forEachNoVar      -- AttributeError @ parse_for_each_variable_definition `parsed_template.var`; guard: `var` is mandatory
   deriving Repr, DecidableEq, Inhabited
 
 def Site.name : Site → String
-  | .friendNotMap => "AssertionError@parse_recipe_yaml.parse_statement_list"
-  | .stmtKeyNotStr => "AttributeError@parse_recipe_yaml.parse_statement_list"
-  | .fieldValueShape => "AssertionError@parse_recipe_yaml.parse_field_value"
-  | .fieldNameFalsy => "AssertionError@parse_recipe_yaml.parse_field"
-  | .fieldNameNotStr => "AttributeError@parse_recipe_yaml.register"
-  | .funcNameNotStr => "TypeError@parse_recipe_yaml.parse_structured_value"
-  | .funcNameDots => "ValueError@parse_recipe_yaml.parse_structured_value"
-  | .forEachNoVar => "AttributeError@parse_recipe_yaml.parse_for_each_variable_definition"
-  | .includeAbs => "AssertionError@parse_recipe_yaml.relpath_from_inclusion_element"
   | .macroUnhashable => "TypeError@parse_recipe_yaml.parse_top_level_elements"
   | .pluginNotStr => "AttributeError@plugins.resolve_plugin_alternatives"
   | .pluginNoDot => "ValueError@plugins.resolve_plugin_alternatives"
   | .optionUnhashable => "TypeError@data_generator.merge_options"
-  | .refNoArgs => "UnboundLocalError@data_generator_runtime.get_referent_name"
-  | .refNoTo => "KeyError@data_generator_runtime.get_referent_name"
-  | .refNotSimple => "AttributeError@data_generator_runtime.get_referent_name"
   | .templateNoObject => "AttributeError@parse_recipe_yaml.parse_object_template"
   | .varNoVar => "AttributeError@parse_recipe_yaml.parse_variable_definition"
+  | .forEachNoVar => "AttributeError@parse_recipe_yaml.parse_for_each_variable_definition"
 
 /-! ### Parsed form -/
 
@@ -219,7 +206,7 @@ def objectKeys : KeyTable :=
 def varMandatory : KeyTable := [("value", [.str, .int, .dict, .list])]
 
 /-- `parse_for_each_variable_definition`: `mandatory_keys` -/
-def forEachMandatory : KeyTable := [("value", [.dict, .str])]
+def forEachMandatory : KeyTable := [("var", [.str]), ("value", [.dict, .str])]
 
 /-- `include_macro`: `optional_keys` -/
 def macroKeys : KeyTable := [("fields", [.dict]), ("friends", [.list]), ("include", [.str])]
@@ -371,21 +358,21 @@ def optStrOf (kvs : KVs) (k : String) : Option String :=
 
 mutual
 
-/-- `parse_field_value` -/
-def parseFieldValue (fuel : Nat) (m : Macros) (v : Y) : Res Ast :=
+/-- `parse_field_value`.  `ex`: `context.macros_being_expanded` -/
+def parseFieldValue (fuel : Nat) (m : Macros) (ex : List String) (v : Y) : Res Ast :=
   match fuel with
   | 0 => .fuel
   | fuel + 1 =>
     match v with
-    | .list [.map kvs] => parseFieldValue fuel m (.map kvs)   -- "unwrap a list of a single item"
-    | .list _ => .stuck .fieldValueShape                      -- raise AssertionError("Unknown field …")
+    | .list [.map kvs] => parseFieldValue fuel m ex (.map kvs)   -- "unwrap a list of a single item"
+    | .list _ => .recipeError .syntax                            -- "Unknown field … type"
     | .map kvs =>
-      if getTruthy kvs "object" then parseTemplate fuel m false kvs
-      else parseStructured fuel m kvs
+      if getTruthy kvs "object" then parseTemplate fuel m ex false kvs
+      else parseStructured fuel m ex kvs
     | s => pure (.simple (toScalar s))
 
 /-- `parse_structured_value` (no `ParserMacroPlugin` is loaded in the modelled fragment) -/
-def parseStructured (fuel : Nat) (m : Macros) (kvs : KVs) : Res Ast :=
+def parseStructured (fuel : Nat) (m : Macros) (ex : List String) (kvs : KVs) : Res Ast :=
   match fuel with
   | 0 => .fuel
   | fuel + 1 =>
@@ -395,15 +382,15 @@ def parseStructured (fuel : Nat) (m : Macros) (kvs : KVs) : Res Ast :=
       let args : Y := if rest.isEmpty then a else .map rest    -- several keys: the first value is dropped
       match k with
       | .str fn =>
-        if countDots fn ≥ 2 then .stuck .funcNameDots          -- namespace, name = fn.split(".")
+        if countDots fn ≥ 2 then .recipeError .syntax          -- "Function names should have only one '.'"
         else do
-          let pa ← parseArgs fuel m args
+          let pa ← parseArgs fuel m ex args
           let ast := Ast.struct fn pa.1 pa.2
           if fn == "random_reference" then Res.ok ast [pa] else pure ast
-      | _ => .stuck .funcNameNotStr                            -- "." in function_name
+      | _ => .recipeError .syntax                              -- "Function names should be strings"
 
 /-- `parse_structured_value_args` followed by `StructuredValue.__init__` (`args` / `kwargs`) -/
-def parseArgs (fuel : Nat) (m : Macros) (a : Y) : Res Ref :=
+def parseArgs (fuel : Nat) (m : Macros) (ex : List String) (a : Y) : Res Ref :=
   match fuel with
   | 0 => .fuel
   | fuel + 1 =>
@@ -411,77 +398,81 @@ def parseArgs (fuel : Nat) (m : Macros) (a : Y) : Res Ref :=
     | .map kvs => do
       let kw ← mapR (fun (p : Y × Y) => do
         let k ← coerceKey p.1
-        let x ← parseFieldValue fuel m p.2
+        let x ← parseFieldValue fuel m ex p.2
         pure (k, x)) kvs
       pure ([], dedupe kw)
     | .list xs => do
-      let pos ← mapR (parseFieldValue fuel m) xs
+      let pos ← mapR (parseFieldValue fuel m ex) xs
       pure (pos, [])
     | s => do
-      let x ← parseFieldValue fuel m s
+      let x ← parseFieldValue fuel m ex s
       pure ([x], [])
 
-/-- `parse_fields` / `parse_field`: names stay raw until `TableInfo.register` looks at them -/
-def parseFields (fuel : Nat) (m : Macros) (kvs : KVs) : Res (List (Y × Ast)) :=
+/-- `parse_fields` / `parse_field`: a field name is a non-empty string -/
+def parseFields (fuel : Nat) (m : Macros) (ex : List String) (kvs : KVs) : Res (List (String × Ast)) :=
   match fuel with
   | 0 => .fuel
   | fuel + 1 =>
     mapR (fun (p : Y × Y) =>
-      if !p.1.truthy then Res.stuck .fieldNameFalsy            -- assert name, name
-      else do
-        let x ← parseFieldValue fuel m p.2
-        pure (p.1, x)) kvs
+      match p.1 with
+      | .str name =>
+        if name == "" then Res.recipeError .syntax             -- "Field names should be non-empty strings"
+        else do
+          let x ← parseFieldValue fuel m ex p.2
+          pure (name, x)
+      | _ => Res.recipeError .syntax) kvs
 
 /-- `parse_statement_list` -/
-def parseStmts (fuel : Nat) (m : Macros) (top : Bool) (xs : List Y) : Res (List Ast) :=
+def parseStmts (fuel : Nat) (m : Macros) (ex : List String) (top : Bool) (xs : List Y) : Res (List Ast) :=
   match fuel with
   | 0 => .fuel
   | fuel + 1 =>
     mapR (fun (x : Y) =>
       match x with
       | .map kvs =>
-        if getTruthy kvs "object" then parseTemplate fuel m top kvs
-        else if getTruthy kvs "var" then parseVar fuel m kvs
-        else if kvs.all (fun p => p.1.isStr) then Res.recipeError .syntax   -- "This statement cannot be parsed"
-        else Res.stuck .stmtKeyNotStr                          -- key.startswith("_") on a non-string key
-      | _ => Res.stuck .friendNotMap) xs                       -- assert isinstance(obj, dict)
+        if getTruthy kvs "object" then parseTemplate fuel m ex top kvs
+        else if getTruthy kvs "var" then parseVar fuel m ex kvs
+        else Res.recipeError .syntax                           -- "This statement cannot be parsed"
+      | _ => Res.recipeError .syntax) xs                       -- "Statements should be dictionaries"
 
 /-- `parse_variable_definition` -/
-def parseVar (fuel : Nat) (m : Macros) (kvs : KVs) : Res Ast :=
+def parseVar (fuel : Nat) (m : Macros) (ex : List String) (kvs : KVs) : Res Ast :=
   match fuel with
   | 0 => .fuel
   | fuel + 1 => do
     parseElement kvs "var" varMandatory []
     match lookup kvs "var", lookup kvs "value" with
     | some (.str name), some value => do
-      let x ← parseFieldValue fuel m value
+      let x ← parseFieldValue fuel m ex value
       pure (.var name x)
-    | _, _ => .stuck .varNoVar
+    | _, _ => .stuck .varNoVar                                 -- parsed_template.var
 
-/-- `parse_for_each_variable_definition`: `var` is *not* among the mandatory keys -/
-def parseForEach (fuel : Nat) (m : Macros) (kvs : KVs) : Res (String × Ast) :=
+/-- `parse_for_each_variable_definition` -/
+def parseForEach (fuel : Nat) (m : Macros) (ex : List String) (kvs : KVs) : Res (String × Ast) :=
   match fuel with
   | 0 => .fuel
   | fuel + 1 => do
     parseElement kvs "var" forEachMandatory []
     match lookup kvs "var", lookup kvs "value" with
     | some (.str name), some value => do
-      let x ← parseFieldValue fuel m value
+      let x ← parseFieldValue fuel m ex value
       pure (name, x)
     | _, _ => .stuck .forEachNoVar                             -- parsed_template.var
 
 /-- `parse_inclusions` -/
-def parseInclusions (fuel : Nat) (m : Macros) (names : List String) (parents : List String) :
-    Res (List (Y × Ast) × List Ast) :=
+def parseInclusions (fuel : Nat) (m : Macros) (ex : List String) (names : List String)
+    (parents : List String) : Res (List (String × Ast) × List Ast) :=
   match fuel with
   | 0 => .fuel
   | fuel + 1 => do
-    let rs ← mapR (fun (n : String) => includeMacro fuel m n parents) names
+    let rs ← mapR (fun (n : String) => includeMacro fuel m ex n parents) names
     pure (rs.flatMap (·.1), rs.flatMap (·.2))
 
-/-- `include_macro` (its own `_dedupe_field_list` is subsumed by the one of the including template) -/
-def includeMacro (fuel : Nat) (m : Macros) (name : String) (parents : List String) :
-    Res (List (Y × Ast) × List Ast) :=
+/-- `include_macro`: a macro that is being expanded — by this chain of inclusions (`parents`) or by
+    an enclosing template further out (`ex`, `context.macros_being_expanded`) — is a recipe error.
+    (Its own `_dedupe_field_list` is subsumed by the one of the including template.) -/
+def includeMacro (fuel : Nat) (m : Macros) (ex : List String) (name : String) (parents : List String) :
+    Res (List (String × Ast) × List Ast) :=
   match fuel with
   | 0 => .fuel
   | fuel + 1 =>
@@ -489,15 +480,16 @@ def includeMacro (fuel : Nat) (m : Macros) (name : String) (parents : List Strin
     | none => .recipeError .name                               -- "Cannot find macro named"
     | some mk => do
       parseElement mk "macro" [] macroKeys
-      if parents.contains name then Res.recipeError .generic   -- "Macro `a` calls `b` which calls `a`"
+      if parents.contains name || ex.contains name then
+        Res.recipeError .generic   -- "Macro `a` calls `b` which calls `a`" / "includes itself through a nested object template"
       else do
-        let inc ← parseInclusions fuel m (inclusionNames mk) (parents ++ [name])
-        let fields ← onMap (lookup mk "fields") (parseFields fuel m) []
-        let friends ← onList (lookup mk "friends") (parseStmts fuel m false) []
+        let inc ← parseInclusions fuel m (ex ++ [name]) (inclusionNames mk) (parents ++ [name])
+        let fields ← onMap (lookup mk "fields") (parseFields fuel m (ex ++ [name])) []
+        let friends ← onList (lookup mk "friends") (parseStmts fuel m (ex ++ [name]) false) []
         pure (inc.1 ++ fields, inc.2 ++ friends)
 
 /-- `parse_object_template`, `ObjectTemplate.__init__`, `ParseContext.register_template` -/
-def parseTemplate (fuel : Nat) (m : Macros) (top : Bool) (kvs : KVs) : Res Ast :=
+def parseTemplate (fuel : Nat) (m : Macros) (ex : List String) (top : Bool) (kvs : KVs) : Res Ast :=
   match fuel with
   | 0 => .fuel
   | fuel + 1 => do
@@ -506,17 +498,16 @@ def parseTemplate (fuel : Nat) (m : Macros) (top : Bool) (kvs : KVs) : Res Ast :
     else
       match lookup kvs "object" with
       | some (.str table) => do
-        let inc ← parseInclusions fuel m (inclusionNames kvs) []
-        let fields ← onMap (lookup kvs "fields") (parseFields fuel m) []
-        let friends ← onList (lookup kvs "friends") (parseStmts fuel m false) []
-        let count ← optR (lookup kvs "count") (parseFieldValue fuel m)
-        let forEach ← optMapR (lookup kvs "for_each") (parseForEach fuel m)
+        let inc ← parseInclusions fuel m ex (inclusionNames kvs) []
+        let fields ← onMap (lookup kvs "fields") (parseFields fuel m ex) []
+        let friends ← onList (lookup kvs "friends") (parseStmts fuel m ex false) []
+        let count ← optR (lookup kvs "count") (parseFieldValue fuel m ex)
+        let forEach ← optMapR (lookup kvs "for_each") (parseForEach fuel m ex)
         if count.isSome && forEach.isSome then Res.recipeError .syntax   -- "Cannot specify both a count … and a for-each"
-        else if (inc.1 ++ fields).all (fun p => p.1.isStr) then
+        else
           pure (.tmpl table (optStrOf kvs "nickname") (justOnceOf kvs) (optStrOf kvs "update_key")
-                  (dedupe ((inc.1 ++ fields).map (fun p => (keyStr p.1, p.2)))) (inc.2 ++ friends) count forEach)
-        else Res.stuck .fieldNameNotStr                        -- field.name.startswith("__")
-      | _ => .stuck .templateNoObject
+                  (dedupe (inc.1 ++ fields)) (inc.2 ++ friends) count forEach)
+      | _ => .stuck .templateNoObject                          -- parsed_template.object
 
 end
 
@@ -538,6 +529,7 @@ structure Env where
 structure Top where
   options : List KVs := []
   macros : Macros := []
+  version : Option Nat := none
   deriving Repr, Inhabited
 
 /-- `categorize_top_level_objects` for one element: the category, or the error -/
@@ -557,6 +549,23 @@ def hasCat (cat : String) (obj : Y) : Bool :=
   match categorize obj with
   | .ok c _ => c == cat
   | _ => false
+
+/-- `"." in declared.strip(".") and not declared.startswith(".")` -/
+def pluginNameOk (s : String) : Bool :=
+  !(s.toList.head? == some '.') && ((s.toList.reverse.dropWhile (· == '.')).contains '.')
+
+/-- the declaration loop of `parse_top_level_elements`: an option / macro name must not be a list or
+    a mapping, a plugin name must be a dotted string that does not start with a dot -/
+def declOk (kind : String) (obj : Y) : Res Unit :=
+  match lookup (kvsOf obj) kind with
+  | some v =>
+    if kind == "plugin" then
+      match v with
+      | .str s => if pluginNameOk s then pure () else .recipeError .syntax
+      | _ => .recipeError .syntax                            -- "Cannot use `…` as the name of a plugin"
+    else if v.hashable then pure ()
+    else .recipeError .syntax                                -- "Cannot use `…` as the name of a option / macro"
+  | none => .recipeError .syntax
 
 /-- the macro-name step of `parse_top_level_elements`:
     `context.macros.update({obj["macro"]: obj for obj in …})` -/
@@ -601,11 +610,22 @@ def parseVersion (decls : List Y) : Res (Option Nat) :=
       | none => .recipeError .syntax    -- conflicting, or "Version must be 2 or 3"
     | none => .recipeError .syntax
 
-/-- `parse_file` after YAML loading + `parse_top_level_elements`.  Returns the accumulated context,
-    the statements (included ones first) and this file's version. -/
-def loadFile (fuel : Nat) (env : Env) (acc : Top) (doc : Y) : Res (Top × List Y × Option Nat) :=
+/-- the version step of `parse_top_level_elements`: this file's declarations must agree with what an
+    included file declared; a declared version becomes the recipe's version -/
+def mergeVersion (cur own : Option Nat) : Res (Option Nat) :=
+  match own with
+  | none => pure cur
+  | some v =>
+    match cur with
+    | none => pure (some v)
+    | some c => if c == v then pure (some v) else .recipeError .syntax   -- "multiple conflicting versions"
+
+/-- `parse_file` after YAML loading + `parse_top_level_elements`.  `stack`:
+    `context.files_being_parsed` (the included files being parsed; the recipe itself is not on it).
+    Returns the accumulated context and the statements (included ones first). -/
+def loadFile (fuel : Nat) (env : Env) (stack : List String) (acc : Top) (doc : Y) : Res (Top × List Y) :=
   match fuel with
-  | 0 => .fuel                                               -- RecursionError: include_file cycle
+  | 0 => .fuel
   | fuel + 1 =>
     match doc with
     | .list data => do
@@ -616,20 +636,29 @@ def loadFile (fuel : Nat) (env : Env) (acc : Top) (doc : Y) : Res (Top × List Y
           parseElement (kvsOf inc) "include_file" [] []
           match lookup (kvsOf inc) "include_file" with
           | some (.str rel) =>
-            if startsWithSlash rel then Res.stuck .includeAbs  -- assert not relpath.startswith("/")
+            if startsWithSlash rel then Res.recipeError .syntax   -- "include_file paths should be relative"
             else match env.files.lookup rel with
-              | none => Res.recipeError .generic              -- "Cannot load include file"
-              | some .yamlError => Res.recipeError .syntax
-              | some (.doc d) => do
-                let sub ← loadFile fuel env st.1 d
-                pure (sub.1, st.2 ++ sub.2.1)
+              | none => Res.recipeError .generic              -- "Cannot load include file" (missing, or a directory)
+              | some c =>
+                if stack.contains rel then Res.recipeError .generic   -- "Include file … includes itself"
+                else match c with
+                  | .yamlError => Res.recipeError .syntax
+                  | .doc d => do
+                    let sub ← loadFile fuel env (stack ++ [rel]) st.1 d
+                    pure (sub.1, st.2 ++ sub.2)
           | _ => Res.recipeError .syntax)
         (acc, [])
-      let acc1 : Top := { r.1 with options := r.1.options ++ (data.filter (hasCat "option")).map kvsOf }
-      let macros ← registerMacros acc1.macros (data.filter (hasCat "macro"))
+      -- the declaration loop
+      forR (declOk "option") (data.filter (hasCat "option"))
+      forR (declOk "macro") (data.filter (hasCat "macro"))
+      forR (declOk "plugin") (data.filter (hasCat "plugin"))
+      let macros ← registerMacros r.1.macros (data.filter (hasCat "macro"))
       forR (checkPlugin env) (data.filter (hasCat "plugin"))
-      let version ← parseVersion (data.filter (hasCat "snowfakery_version"))
-      pure ({ acc1 with macros := macros }, r.2 ++ data.filter (hasCat "statement"), version)
+      let own ← parseVersion (data.filter (hasCat "snowfakery_version"))
+      let version ← mergeVersion r.1.version own
+      pure ({ options := r.1.options ++ (data.filter (hasCat "option")).map kvsOf, macros := macros,
+              version := version },
+            r.2 ++ data.filter (hasCat "statement"))
     | _ => .recipeError .syntax                               -- "Recipe file should be a list"
 
 /-! ### the static passes of `generate` that run before the first row -/
@@ -645,24 +674,16 @@ def checkOption (o : KVs) : Res Unit :=
     else .recipeError .name                                  -- "No definition supplied for option"
   | none => .recipeError .name
 
-/-- `get_referent_name` -/
+/-- `get_referent_name`: `target = args[0] if args else kwargs.get("to")`,
+    `getattr(target, "definition", None)` must be a string -/
 def checkRef (r : Ref) : Res Unit :=
-  let target : Res Ast :=
+  let target : Option Ast :=
     match r.1 with
-    | x :: _ => pure x                                       -- args[0]
-    | [] =>
-      match r.2 with
-      | [] => .stuck .refNoArgs                              -- `ret` is never assigned
-      | kw => match kw.lookup "to" with
-        | some x => pure x
-        | none => .stuck .refNoTo                            -- kwargs["to"]
+    | x :: _ => some x
+    | [] => r.2.lookup "to"
   match target with
-  | .ok (.simple (.str _)) _ => pure ()
-  | .ok (.simple _) _ => .recipeError .syntax                -- "random_reference should only refer to a name"
-  | .ok _ _ => .stuck .refNotSimple                          -- `.definition` of a StructuredValue / ObjectTemplate
-  | .recipeError e => .recipeError e
-  | .stuck s => .stuck s
-  | .fuel => .fuel
+  | some (.simple (.str _)) => pure ()
+  | _ => .recipeError .syntax                                -- "random_reference should only refer to a name"
 
 /-- what reaches the interpreter -/
 structure Parsed where
@@ -673,9 +694,9 @@ structure Parsed where
 
 /-- `parse_recipe` -/
 def parseRecipe (fuel : Nat) (env : Env) (doc : Y) : Res Parsed := do
-  let r ← loadFile fuel env {} doc
-  let stmts ← parseStmts fuel r.1.macros true r.2.1
-  pure { statements := stmts, version := r.2.2, options := r.1.options }
+  let r ← loadFile fuel env [] {} doc
+  let stmts ← parseStmts fuel r.1.macros [] true r.2
+  pure { statements := stmts, version := r.1.version, options := r.1.options }
 
 /-- everything `generate` decides before a row can be written: `parse_recipe`, `merge_options`,
     `find_tables_to_keep_history_for` -/
